@@ -18,6 +18,16 @@ CHECKS = {
    text="Every stream of length <= 7 (thorough 9) over {-0.0,+0.0,-2,1} for n=1..4 exhaustively, plus proptest tie-forcing alphabet streams and segment-built streams for every length 1..=254; max/min/delta/newest-arg-extremum age/median and SMM::get_window compared exactly with the from-scratch value on the padded history at every step.",
    note="Trusted: naive reference in refm::sel; inputs finite. Exact comparison with == (only the sign of zero is tolerated).",
    ref="DESIGN.md §5 C04"),
+ "C02": dict(
+   technique="PBT differential against independent from-scratch formula evaluation with a stated rounding allowance",
+   text="19 finite-window methods, every length class 1..=254, segment-built streams (plateaus, spikes, scale jumps, sign flips, zero runs) incl. warm-up and an independent prehistory value; two-sided comparison with the naive formula on the padded history inside K*eps*(n+t)*M_t*g.",
+   note="Trusted: refm::win naive formulas (f64), allowance constant K=256 (DESIGN 4.2); ill-conditioned quotients exempt and counted. Streams <= 2048 steps; longer histories are C07's.",
+   ref="DESIGN.md §5 C02, §4.2"),
+ "C03": dict(
+   technique="PBT differential against independently re-implemented recurrences with carried rounding allowance",
+   text="EMA/DMA/TMA/DEMA/TEMA/RMA/WSMA/TSI/Vidya/TR/HeikinAshi/Integral(0)/ADI(0) against their documented recurrences at every step of generated streams, all lengths, (short,long) grid for TSI, plateau-after-movement regimes counted.",
+   note="Trusted: reference recurrences in props/c03.rs; K=256. Vidya/TSI steps with an ill-conditioned ratio are checked by a hull predicate only (counted).",
+   ref="DESIGN.md §5 C03"),
 }
 
 PENDING = {
